@@ -38,7 +38,15 @@ from fnmatch import fnmatch
 from typing import TYPE_CHECKING
 
 from .file import ensure_dir_exists
-from .index import Index, IndexEntry
+from .index import (
+    Index,
+    IndexEntry,
+    InvalidPathError,
+    build_file_from_blob,
+    get_path_element_validator,
+    validate_path,
+    verify_leading_dirs,
+)
 from .objects import Blob
 from .repo import Repo
 
@@ -211,9 +219,16 @@ def apply_included_paths(
     index.write()
 
     # 2) Reflect changes in the working tree
+    validate_path_element = get_path_element_validator(config)
+    safe_prefix: list[bytes] = []
     for path_bytes, entry in list(index.items()):
         if not isinstance(entry, IndexEntry):
             continue  # Skip conflicted entries
+        # Like every other checkout: never touch anything through an unsafe
+        # name (.git, ..) or through a symlinked leading directory.
+        if not validate_path(path_bytes, validate_path_element):
+            raise InvalidPathError(path_bytes)
+        verify_leading_dirs(path_bytes, safe_prefix, os.fsencode(repo.path))
         full_path = os.path.join(repo.path, path_bytes.decode("utf-8"))
 
         if entry.skip_worktree:
@@ -234,8 +249,8 @@ def apply_included_paths(
                     if not force:
                         raise
         else:
-            # Included => materialize if missing
-            if not os.path.exists(full_path):
+            # Included => materialize if missing (a dangling symlink is there)
+            if not os.path.lexists(full_path):
                 try:
                     blob = repo.object_store[entry.sha]
                 except KeyError:
@@ -247,9 +262,11 @@ def apply_included_paths(
                 if normalizer and isinstance(blob, Blob):
                     blob = normalizer.checkout_normalize(blob, path_bytes)
 
-                with open(full_path, "wb") as f:
-                    if isinstance(blob, Blob):
-                        f.write(blob.data)
+                if isinstance(blob, Blob):
+                    build_file_from_blob(blob, entry.mode, os.fsencode(full_path))
+                else:
+                    with open(full_path, "wb") as f:
+                        pass
 
 
 def parse_sparse_patterns(lines: Sequence[str]) -> list[tuple[str, bool, bool, bool]]:
